@@ -3,8 +3,8 @@
    patch applies, demo passes without / fails with the change, pinned suite unchanged.  Writes /verif/seeded/<id>/."""
 import json, os, shutil, subprocess, sys, tempfile, xml.etree.ElementTree as ET
 sid = sys.argv[1]
-src = f"/tmp/seed_{sid}"
 name = sys.argv[2] if len(sys.argv) > 2 else sid
+src = sys.argv[3] if len(sys.argv) > 3 else f"/tmp/seed_{sid}"
 dst = f"/verif/seeded/{name}"
 wt = f"/tmp/cs_{name}"
 def sh(cmd, **kw): return subprocess.run(cmd, shell=True, capture_output=True, text=True, **kw)
